@@ -1457,4 +1457,134 @@ def r12(cx):
 
 
 # --- explanation addendum (generated catalogue in DESIGN.md reads RS.explanation)
-RS.explanation += ' Added later (sibling and kernel-semantics rules): is_executable_file requires a regular file on both sides (R8); the simulated fork inherits what fork(2) inherits (R9); the simulated pipe() allocates nothing when it fails (R10); wait(-1) tells live children from awaited ones (R11); signals do not affect terminated processes (R12); open(O_CREAT) must not create directories (R6c, open finding).'
+@RS.rule('C19.R13', 'K-PASS', 'a stopped or killed simulated process makes no progress, as under a real kernel: the run loop looks at the '
+         'process state before EVERY poll of the process\'s task - also before the first one and after every suspension (a signal may '
+         'have arrived while the process was not scheduled)')
+def r13(cx):
+    F = cx.F
+    cands = [b for b in F.bodies.values() if b.root.endswith('::run_virtual') and 'Concurrent<' in b.root and b.fn != b.root]
+    cx.require(len(cands) >= 1, 'Concurrent<VirtualSystem>::run_virtual (coroutine body) not found')
+    body = max(cands, key=lambda b: len(b.blocks))
+    cx.fn(body.root)
+    polls = []
+    for blk, t in body.calls():
+        if Q.callee_is(t, ['futures_util::async_await::poll::poll']) or Q.callee_is(t, [re.compile(r'Future(<.*>)?>?::poll$')]):
+            ty = ' '.join(str(x) for x in (t.get('at') or [])) + ' ' + str(body.locals[t['dest']['l']].get('ty'))
+            # the task is the generic parameter F of run_virtual; select() is an `impl Future`
+            if re.search(r'Pin<&mut F>', ty):
+                polls.append((blk, t))
+    cx.require(polls, 'the poll of the task future (Pin<&mut F>) was not found in run_virtual')
+    first = [(blk, t) for blk, t in polls if Q.callee_is(t, ['futures_util::async_await::poll::poll'])] or polls
+    states = {blk for blk, t in body.calls() if Q.callee_is(t, ['yash_env::system::r#virtual::process::Process::state'])}
+    starts = [0] + [s for b in range(len(body.blocks)) if body.term(b)['k'] == 'yield' for s in body.succ(b)]
+    cx.floor(len(starts), 4, 'entry + suspension points of run_virtual')
+    for blk, t in first:
+        bad = None
+        for s in starts:
+            p = body.shortest_path(s, {blk}, removed=states)
+            if p is not None:
+                bad = (s, p)
+                break
+        cx.site('run_virtual: task polled at %s; %d entry/resume points; state read on every path to it: %s' % (body.loc(t), len(starts), bad is None))
+        if bad:
+            s, p = bad
+            what = 'the entry of the run loop' if s == 0 else 'the resumption at %s' % body.loc(body.term(p[0]) if body.term(p[0]).get('line') else t)
+            cx.violation(body.root, 'task-polled-without-state-check:%s' % ('entry' if s == 0 else 'resume'),
+                         'from %s the task of the simulated process is polled without looking at the process state first: a child that '
+                         'was killed (or stopped) before it was first scheduled, or while it was suspended, still runs its body - a real '
+                         'kernel never runs a process after SIGKILL/SIGSTOP took effect' % what,
+                         loc=body.loc(t), path=Q.render_path(body, p))
+
+
+@RS.rule('C19.R14', 'K-GUARD', 'a simulated process that has been waited for no longer exists: kill() does not signal it and answers ESRCH, '
+         'as a real kernel does once the zombie is reaped (wait() already answers ECHILD for it: the two calls must agree)')
+def r14(cx):
+    F = cx.F
+    P = 'yash_env::system::r#virtual::process::Process::'
+
+    def reads_reaped_state(fn, depth=2):
+        """The Process method looks at state_has_changed (what take_state clears when the parent waits)."""
+        b = F.bodies.get(fn)
+        if b is None:
+            return False
+        for blk, j, st in b.stmts():
+            if st['k'] == 'assign':
+                for pl in Q.rvalue_places(st['rv']):
+                    if any(isinstance(x, dict) and x.get('f') == 'state_has_changed' for x in (pl.get('p') or [])):
+                        return True
+        if depth:
+            for blk, t in b.calls():
+                c = pp.callee(t)
+                if c.startswith(P) and reads_reaped_state(c, depth - 1):
+                    return True
+        return False
+
+    senders = [b for b in F.bodies.values() if '::r#virtual::' in b.fn and '::tests::' not in b.fn
+               and not b.fn.startswith(P) and Q.find_calls(b, [P + 'raise_signal'])]
+    # raise_signal on the CURRENT process (raise(), abort paths) is not addressed to a pid: only the kill paths count
+    kill_paths = [b for b in senders if b.root.endswith('::kill') or b.root.endswith('::send_signal_to_processes')]
+    cx.require(len(kill_paths) >= 2, 'the kill paths of the simulated kernel (SendSignal::kill, send_signal_to_processes) were not found: %s'
+               % sorted(b.fn for b in senders))
+    for b in kill_paths:
+        cx.fn(b.fn)
+        du = Q.DefUse(b)
+        for blk, t in Q.find_calls(b, [P + 'raise_signal']):
+            ok = False
+            for org, lab, e in Q.implied_conditions(F, b, du, blk):
+                if org['k'] == 'call' and pp.callee(org['t']).startswith(P) and reads_reaped_state(pp.callee(org['t'])):
+                    ok = True
+            cx.site('%s: raise_signal at %s behind a has-it-been-awaited test: %s' % (b.fn, b.loc(t), ok))
+            if not ok:
+                cx.violation(b.root, 'signal-to-reaped-process', 'kill() delivers a signal to (and answers success for) a simulated process '
+                             'whose termination the parent has already collected with wait(): the process table never forgets a pid, so a '
+                             'script that kills a job it has waited for gets 0 in the simulator and ESRCH ("no such process") on a real kernel',
+                             loc=b.loc(t))
+
+
+@RS.rule('C19.R15', 'K-TAINT', 'getcwd() answers an absolute pathname without `.` and `..` components on a real system; the simulated getcwd '
+         'returns the stored working directory verbatim, so what the simulated chdir stores must have gone through a component-wise '
+         'normalisation (the raw join of the old directory and the operand is never stored)')
+def r15(cx):
+    F = cx.F
+    fn = '<%s as %sfile_system::Chdir>::chdir' % (VIRT, SYS)
+    body = F.body(fn)
+    cx.fn(body.fn)
+    gb = F.body('<%s as %sfile_system::GetCwd>::getcwd' % (VIRT, SYS))
+    cx.fn(gb.fn)
+    verbatim = not Q.find_calls(gb, [re.compile(r'::components$'), re.compile(r'normal', re.I), re.compile(r'canonical', re.I)])
+    joins = Q.find_calls(body, [re.compile(r'unix_path::Path(Buf)?::(join|push)$')])
+    joins = [(blk, t) for blk, t in joins if pp.callee(t).endswith('::join')]
+    sinks = Q.find_calls(body, ['yash_env::system::r#virtual::process::Process::chdir'])
+    writes = [(blk, j, st) for blk, j, st in body.stmts() if st['k'] == 'assign'
+              and any(isinstance(x, dict) and x.get('f') == 'cwd' for x in (st['lhs'].get('p') or []))]
+    cx.require(sinks or writes, 'the simulated chdir no longer stores the working directory (Process::chdir / Process::cwd): anchor moved')
+    if not verbatim:
+        cx.site('simulated getcwd normalises what it returns: nothing demanded of chdir')
+        return
+
+    def normaliser(t):
+        c = pp.callee(t)
+        if re.search(r'::components$', c):
+            return True
+        b = F.bodies.get(c)
+        return bool(b is not None and c.startswith('yash_env::') and Q.find_calls(b, [re.compile(r'::components$')]))
+    stops = [pp.callee(t) for blk, t in body.calls() if normaliser(t)]
+    raw = Q.forward_taint(body, {t['dest']['l'] for blk, t in joins}, stop_calls=stops or None) if joins else set()
+    for blk, t in sinks:
+        l = Q.operand_local(t['a'][1]) if len(t['a']) > 1 else None
+        bad = l in raw
+        cx.site('simulated chdir: stores %s at %s; raw join result: %s; normalisers on the way: %s'
+                % (Q.operand_name(body, Q.DefUse(body), t['a'][1]), body.loc(t), bad, sorted(set(x.split('::')[-1] for x in stops))))
+        if bad:
+            cx.violation(fn, 'cwd-stored-unnormalised', 'the simulated chdir stores the old working directory joined with the operand as it is, and '
+                         'the simulated getcwd returns that verbatim: after `cd -P ..` (or chdir("./x")) getcwd answers `/dir/sub/..`, a form '
+                         'getcwd(3) never returns - $PWD computed by `cd -P` and `pwd -P` differ between the two systems', loc=body.loc(t))
+    for blk, j, st in writes:
+        bad = any(p['l'] in raw for p in Q.rvalue_places(st['rv']))
+        cx.site('simulated chdir: writes Process::cwd at %s; raw join result: %s' % (body.loc(st), bad))
+        if bad:
+            cx.violation(fn, 'cwd-stored-unnormalised', 'the simulated chdir stores the unnormalised join of the old directory and the operand',
+                         loc=body.loc(st))
+
+
+RS.explanation += ' Added later (sibling and kernel-semantics rules): is_executable_file requires a regular file on both sides (R8); the simulated fork inherits what fork(2) inherits (R9); the simulated pipe() allocates nothing when it fails (R10); wait(-1) tells live children from awaited ones (R11); signals do not affect terminated processes (R12); open(O_CREAT) must not create directories (R6c, open finding). Added after the audit: a killed or stopped simulated process is not polled again (R13); kill() answers ESRCH for an awaited process (R14); the simulated chdir stores a normalised path (R15).'
